@@ -78,6 +78,7 @@ def run(ctx):
     # R18.2 single file
     sa.restore_rule(ctx, 'R18.2')
     sa.commit_after_loop_rule(ctx, 'R18.2')
+    sa.commit_after_loop_multi_rule(ctx, 'R18.2')
     sa.seek_ownership_rule(ctx, 'R18.2s')
     # R18.2 multi-file: fresh parts, nothing destructive before the summary
     ar.fresh_part_rule(ctx, 'R18.2m')
@@ -205,6 +206,18 @@ def _validate_early(ctx):
     pre = _call_stmt(tp, 'self.pre_allocate')
     ok = len(chk) == 1 and len(pre) == 1 and cfg.dominates(cfg.node_of(chk[0]), cfg.node_of(pre[0]))
     ctx.ob('R18.3', 'api.to_pandas:unknown-column-refused-before-reading', ok, '', api.loc(tp))
+    # the check looks at every way of naming columns that the read API documents: lists / tuples, and the dict form of
+    # `categories` (named by its keys)
+    ut = ctx.repo['util']
+    cc = ut.func('check_column_names')
+    kinds = set()
+    for c in ast.walk(cc):
+        if isinstance(c, ast.Call) and norm(c.func) == 'isinstance' and len(c.args) == 2:
+            for x in ast.walk(c.args[1]):
+                if isinstance(x, ast.Name):
+                    kinds.add(x.id)
+    ctx.ob('R18.3', 'util.check_column_names:every-container-form-of-a-column-selection-is-checked', {'list', 'tuple', 'dict'} <= kinds,
+           'container kinds looked at: %s; to_pandas(categories={...}) names columns by dict keys' % sorted(kinds), ut.loc(cc))
 
 
 def wr_mod(ctx):
